@@ -61,6 +61,7 @@ func readFile(path string) (ops, expect []string, err error) {
 }
 
 func run(e *hx.Env) *hx.Report {
+	policy.ManyPorts = true // rules with 16-40 ports of one protocol: several iptables rules per policy rule
 	rep := hx.NewReport(prop, e.Tier, e.Seed,
 		"a history is nontrivial iff some full sync started from a kernel state that already held galaxy-owned sets or chains")
 	if e.Replay != "" {
@@ -134,6 +135,9 @@ func run(e *hx.Env) *hx.Report {
 		}
 		rep.Case(strings.Join(ops, "\n"), r.Nontriv)
 		rep.Hit("history:generated")
+		if manyPorts(ops) {
+			rep.Hit("history:rule-with-more-than-15-ports")
+		}
 		if r.Nontriv {
 			rep.Hit("history-nontrivial")
 		}
@@ -142,6 +146,22 @@ func run(e *hx.Env) *hx.Report {
 		}
 	}
 	return rep
+}
+
+// manyPorts: does some policy of the history carry a rule with more than 15 ports of one protocol (rendered as several
+// iptables rules of at most 15 ports each)?
+func manyPorts(ops []string) bool {
+	for _, l := range ops {
+		for _, w := range strings.Fields(l) {
+			for _, part := range strings.Split(w, ";") {
+				if at := strings.LastIndexByte(part, '@'); at >= 0 &&
+					(strings.Count(part[at:], "tcp/") > 15 || strings.Count(part[at:], "udp/") > 15) {
+					return true
+				}
+			}
+		}
+	}
+	return false
 }
 
 func main() { hx.Main(prop, run) }
